@@ -10,6 +10,7 @@ from ..core import AnalysisError, FUNC, call_attr, calls_in, const, dotted, is_c
 from .c01 import field_rules
 
 EXPLANATION = [
+    'C18.avdtp-fragments: fragmentation of an AVDTP signalling message (packet count = ceil(len / fragment size), header sizes, slices) as decided by C19.avdtp-single: a message whose length is an exact multiple of the fragment size announces the right number of packets.',
     'C18.defined-at-return: in every function of the codec modules a local that is returned has been assigned on every path to that return (definite-assignment walk; names bound in loops, with-items, handlers excluded): no parser falls through a `match`/`if` chain into returning the variable of another arm.',
     'C18.enum-distinct: every enumeration of wire codes in the codec modules gives distinct members distinct values (specified aliases listed by name): a member that shares a code with another one cannot round-trip.',
     'C18.rtp-tail: MediaPacket.from_bytes hands the constructor data[12 + 4*CC:] untouched on every path (symbolic value of the returned constructor call), the constructor stores it unchanged and __bytes__ ends with it: what the parser took as payload is what the serialiser writes.',
@@ -438,6 +439,24 @@ def generic(ctx):
         lost = sorted(f'{k} ({" ".join(w)})' for k, st in res.items() if k.startswith('ret') for v, w in st.items() if not v)
         R.check(any(k.startswith('ret') for k in res) and not lost, rule, 'bumble.avdtp.Message.create | payload kept', 'every returned instance has been given the received payload',
                 'a message class chosen by Message.create is returned without the received payload (its own field table is empty): the message re-serialises to nothing, e.g. a reject loses its error code', p.loc(fn), lost[:3])
+    # ATT Read Multiple Variable Response: each tuple is (Length as on the wire, value bytes present); the last value may be
+    # truncated to fit the MTU while its Length keeps the attribute's full length (Vol 3 Part F 3.4.4.12), so the parser keeps
+    # the wire field and the serialiser writes the tuple's first element
+    pf = p.find('bumble.att.ATT_Read_Multiple_Variable_Response._parse_length_value_tuples')
+    if pf is None:
+        R.bad(rule, 'bumble.att.ATT_Read_Multiple_Variable_Response._parse_length_value_tuples', 'anchor missing')
+    else:
+        wire = [dotted(n.targets[0]) for n in walk_local(pf) if isinstance(n, ast.Assign) and "struct.unpack_from('<H', data, offset)" in norm(n.value)]
+        app = [c for c in calls_in(pf) if isinstance(c.func, ast.Attribute) and c.func.attr == 'append' and c.args and isinstance(c.args[0], ast.Tuple) and len(c.args[0].elts) == 2]
+        ok = len(wire) == 1 and len(app) == 1 and norm(app[0].args[0].elts[0]) == wire[0]
+        if ok:
+            v2 = app[0].args[0].elts[1]
+            if isinstance(v2, ast.Name):
+                d2 = [n.value for n in walk_local(pf) if isinstance(n, ast.Assign) and dotted(n.targets[0]) == v2.id]
+                v2 = d2[0] if len(d2) == 1 else v2
+            ok = slice_parts(v2) == ('data', 'offset + 2', f'offset + 2 + {wire[0]}')
+        R.check(ok, rule, 'bumble.att.ATT_Read_Multiple_Variable_Response._parse_length_value_tuples', 'tuple = (Length field of the wire, data[offset+2 : offset+2+Length])',
+                'the parsed tuple does not carry the Length field as received (e.g. the number of bytes present instead): a truncated last value no longer parses back to the value that was built, and re-serialises differently', p.loc(pf))
     # ATT generic
     fn = p.find('bumble.att.ATT_PDU.from_bytes')
     if fn is not None:
@@ -706,7 +725,13 @@ def length_prefix(ctx):
     R.check(len(ctl) == 1 and ctl[0][1:] == (1, 1) and m_ >= 1, rule, 'length-prefixed readers', f'{m_} reader(s) of the form v[a : a + v[k]] examined (control matched)', f'reader census {m_}, control {ctl}')
 
 
+def avdtp_fragments(ctx):
+    from . import c19
+    c19.avdtp_single(ctx, rule='C18.avdtp-fragments')
+
+
 RULES = [
+    ('C18.avdtp-fragments', avdtp_fragments),
     ('C18.sdp-depth', sdp_depth),
     ('C18.length-prefix', length_prefix),
     ('C18.fields', fields_rule),
